@@ -216,6 +216,53 @@ theorem taint_sound_false_entry : ¬ TaintSoundLassoFree F14.G 0 [] := by
   rw [F14.run_reports_nothing] at this
   cases this
 
+namespace C01a
+/-- `x := source(); a, b := x+"1", x+"2"; f := func(){ sink1(a); sink2(b) }; f()`
+    (corpus/findings/C01a_closure_two_bound_vars). graph 0 = main, graph 1 = the closure.
+    The closure node 3 is reached once per bound variable with the SAME key (the tracing info is not
+    part of the key): only the first bound variable is traced into the closure. -/
+def G : LGraph :=
+  { graphs := #[{ fn := 1 }, { fn := 2, callsites := [4], freeVars := [some 5, some 6], referring := [3] }],
+    nodes := #[
+      { kind := .call, graph := 0, callee := 3, callSite := 1, lassoClass := 1, out := [{ dst := 1 }, { dst := 2 }] }, -- 0 source()
+      { kind := .boundVar, graph := 0, index := 0, parent := 3 },                                              -- 1 a bound
+      { kind := .boundVar, graph := 0, index := 1, parent := 3 },                                              -- 2 b bound
+      { kind := .closure, graph := 0, closureSummary := some 1, boundVars := [1, 2], lassoClass := 2, out := [{ dst := 4 }] }, -- 3 f := func...
+      { kind := .call, graph := 0, callee := 2, callSite := 2, calleeSummary := some 1, lassoClass := 3 },     -- 4 f()
+      { kind := .freeVar, graph := 1, index := 0, out := [{ dst := 8 }] },                                     -- 5 a free
+      { kind := .freeVar, graph := 1, index := 1, out := [{ dst := 10 }] },                                    -- 6 b free
+      { kind := .call, graph := 1, callee := 4, callSite := 3, args := [8], lassoClass := 4 },                 -- 7 sink1(a)
+      { kind := .callArg, graph := 1, index := 0, parent := 7, sink := true },
+      { kind := .call, graph := 1, callee := 5, callSite := 4, args := [10], lassoClass := 5 },                -- 9 sink2(b)
+      { kind := .callArg, graph := 1, index := 0, parent := 9, sink := true }] }
+
+def goal : Item := { node := 10, trace := [4], ctrace := [3], prev := some 6 }
+
+theorem run_finished : (run G 0 [] 40).queue = [] := by decide
+theorem run_reports_one : flowsOf G (run G 0 [] 40) = [8] := by decide
+theorem entry_before_exit_fails : entryBeforeExit G 0 [] (run G 0 [] 40) = false := by decide
+
+theorem goal_lasso_free_path : LassoFreePathTo G 0 [] goal := by
+  have s0 : LassoFreePathTo G 0 [] (root 0 []) := .root (by simp)
+  have s1 : LassoFreePathTo G 0 [] { node := 2, prev := some 0 } := .step s0 (by decide)
+  have s2 : LassoFreePathTo G 0 [] { node := 3, ctrace := [3], ct := true, tinfo := [(1, 1)], prev := some 2 } :=
+    .step s1 (by decide)
+  have s3 : LassoFreePathTo G 0 [] { node := 4, ctrace := [3], ct := true, tinfo := [(1, 1)], prev := some 3 } :=
+    .step s2 (by decide)
+  have s4 : LassoFreePathTo G 0 [] { node := 6, trace := [4], ctrace := [3], prev := some 4 } := .step s3 (by decide)
+  exact .step s4 (by decide)
+end C01a
+
+/-- ¬`TaintSoundLassoFree`, second witness: a closure capturing two tainted variables (C01a) — the
+    tracing info is auxiliary data outside the `seen` key, exactly like `Prev` in F14. -/
+theorem taint_sound_false_closure : ¬ TaintSoundLassoFree C01a.G 0 [] := by
+  intro h
+  have hr : FinishedRun C01a.G 0 [] (run C01a.G 0 [] 40) :=
+    ⟨bfs_steps key (succ C01a.G 0) 40 _, C01a.run_finished⟩
+  have := h _ hr C01a.goal C01a.goal_lasso_free_path (by decide)
+  rw [C01a.run_reports_one] at this
+  simp [C01a.goal] at this
+
 /-! ### Non-vacuity: a graph on which the hypotheses hold and a flow is reported -/
 
 namespace Ok
